@@ -201,6 +201,20 @@ theorem copyPath_counterexample :
     (copyAll fx s ⟨[], []⟩ [("a".toList, ["x"])]).1 = false ∧
     (copyAll fx s ⟨[], []⟩ [("a".toList, ["x"])]).2.1.mem = [] := by decide
 
+/-- The generated-file flush reports a failure of ANY output location (not only the last one),
+    and reports success only if every output was flushed. -/
+theorem flush_reports_any_failure (fails : List Bool) :
+    (flushOuts fails).1 = fails.any id ∧ ((flushOuts fails).1 = false → (flushOuts fails).2 = fails.length) := by
+  induction fails with
+  | nil => simp [flushOuts]
+  | cons f rest ih =>
+    unfold flushOuts
+    cases f with
+    | true => simp
+    | false =>
+      simp only [Bool.false_eq_true, if_false, List.any_cons, id, Bool.false_or, List.length_cons]
+      exact ⟨ih.1, fun h => by rw [ih.2 h]⟩
+
 /-! ### Atomic put -/
 
 /-- the write phase without faults -/
